@@ -44,10 +44,36 @@ pub fn schema_json() -> Value {
 /// `[(id, score)]` of a response
 pub type Ranking = Vec<(String, f64)>;
 
+/// documents that tie exactly (bit-equal scores) in BOTH lists must appear in the same relative
+/// order in both: exact ties are resolved by segment and document order, deterministically
+pub fn tie_order_consistent(a: &Ranking, b: &Ranking) -> bool {
+  use std::collections::HashMap;
+  let sb: HashMap<&String, u64> = b.iter().map(|h| (&h.0, h.1.to_bits())).collect();
+  let sa: HashMap<&String, u64> = a.iter().map(|h| (&h.0, h.1.to_bits())).collect();
+  let mut ga: HashMap<(u64, u64), Vec<&String>> = HashMap::new();
+  for h in a.iter() {
+    if let Some(y) = sb.get(&h.0) {
+      ga.entry((h.1.to_bits(), *y)).or_default().push(&h.0);
+    }
+  }
+  let mut gb: HashMap<(u64, u64), Vec<&String>> = HashMap::new();
+  for h in b.iter() {
+    if let Some(x) = sa.get(&h.0) {
+      gb.entry((*x, h.1.to_bits())).or_default().push(&h.0);
+    }
+  }
+  ga.iter().all(|(k, v)| gb.get(k).map(|w| w == v).unwrap_or(false))
+}
+
 /// the comparison rule of DESIGN §3.5: same length, scores pairwise within `rel`, and within
 /// each run of near-equal scores the same set of ids (the last run may be cut by the limit, in
-/// which case its members may differ)
-pub fn same_ranking(a: &Ranking, b: &Ranking, limit: usize, rel: f64) -> bool {
+/// which case its members may differ).  Exact ties are not rounding noise:
+/// * `strict` (two runs of the IMPLEMENTATION, whose per-document scores are bit-identical
+///   across strategies: every leaf sums at most two terms): a run that is bit-equal in both
+///   lists with the same score must agree position by position, also when cut by the limit;
+/// * otherwise (model in f64 vs implementation in f32): documents tying exactly in both lists
+///   must keep their relative order (`tie_order_consistent`).
+pub fn same_ranking_mode(a: &Ranking, b: &Ranking, limit: usize, rel: f64, strict: bool) -> bool {
   if a.len() != b.len() {
     return false;
   }
@@ -63,10 +89,7 @@ pub fn same_ranking(a: &Ranking, b: &Ranking, limit: usize, rel: f64) -> bool {
       e += 1;
     }
     let cut = e == a.len() && a.len() >= limit;
-    // exact ties are resolved deterministically (segment, then document order): when all scores
-    // of the run are bit-equal in both lists the ids must agree position by position, also in
-    // a run that is cut by the limit; only genuinely near-equal scores may swap
-    let exact = a[s..e].iter().all(|h| h.1 == a[s].1) && b[s..e].iter().all(|h| h.1 == b[s].1);
+    let exact = strict && a[s].1 == b[s].1 && a[s..e].iter().all(|h| h.1 == a[s].1) && b[s..e].iter().all(|h| h.1 == b[s].1);
     if exact {
       if (s..e).any(|i| a[i].0 != b[i].0) {
         return false;
@@ -82,16 +105,29 @@ pub fn same_ranking(a: &Ranking, b: &Ranking, limit: usize, rel: f64) -> bool {
     }
     s = e;
   }
-  true
+  strict || tie_order_consistent(a, b)
+}
+
+/// model vs implementation
+pub fn same_ranking(a: &Ranking, b: &Ranking, limit: usize, rel: f64) -> bool {
+  same_ranking_mode(a, b, limit, rel, false)
 }
 
 pub fn ranking_json(r: &Ranking) -> Value {
   Value::Array(r.iter().map(|(i, s)| json!([i, s])).collect())
 }
 
+/// score of a model hit: the exact double (`bits`), so that equal model scores mean bit-equal
+pub fn model_score(h: &Value) -> f64 {
+  match h["bits"].as_u64() {
+    Some(b) => f64::from_bits(b),
+    None => h["score"].as_f64().unwrap_or(f64::NAN),
+  }
+}
+
 pub fn model_ranking(v: &Value) -> Ranking {
   v.as_array()
-    .map(|a| a.iter().map(|h| (h["id"].as_str().unwrap_or("?").to_string(), h["score"].as_f64().unwrap_or(f64::NAN))).collect())
+    .map(|a| a.iter().map(|h| (h["id"].as_str().unwrap_or("?").to_string(), model_score(h))).collect())
     .unwrap_or_default()
 }
 
@@ -660,8 +696,8 @@ impl Prop for C09 {
     s.count(&format!("block.{}", match bs.as_u64() { None => "default", Some(x) if x <= 3 => "1-3", Some(x) if x <= 32 => "4-32", _ => "33-300" }));
 
     // ---- finder: implementation against itself (no model involved)
-    let wand_ok = same_ranking(&w, &b, limit, 2e-5);
-    let bmw_ok = same_ranking(&m, &b, limit, 2e-5);
+    let wand_ok = same_ranking_mode(&w, &b, limit, 2e-5, true);
+    let bmw_ok = same_ranking_mode(&m, &b, limit, 2e-5, true);
     let total_docs: usize = segments.iter().map(|sg| sg.as_array().map(|a| a.len()).unwrap_or(0)).sum();
     if limit >= total_docs {
       s.count("limit_ge_corpus");
